@@ -7,7 +7,8 @@ from .fam_adapters import C08, C09
 from .fam_tokio import C17, C14, C15
 from .fam_aadapters import C16, C13
 from .fam_srv import C07
+from .fam_facts import C18, C20
 
 REGISTRY = {}
-for cls in (C05, C01, C03, C04, C10, C11, C19, C02, C06, C12, C08, C09, C17, C14, C15, C16, C13, C07):
+for cls in (C05, C01, C03, C04, C10, C11, C19, C02, C06, C12, C08, C09, C17, C14, C15, C16, C13, C07, C18, C20):
     REGISTRY[cls.pid] = cls
